@@ -132,7 +132,12 @@ h_cnbit_init(void)
     compinfo_t *info = (compinfo_t *)v;
     ar->special_info = info;
     info->aid        = g_bitid;
+#ifdef NB_NT
+    int nt_size = NB_NT; /* one run per size: memset(mask_buf, .., nt_size) with a symbolic size is a
+                            byte-level update of the whole 6 KB object for cbmc */
+#else
     H4V_ND(int, nt_size);
+#endif
     H4V_ND(int, mask_off);
     H4V_ND(int, mask_len);
     H4V_ND(int, fill_one);
